@@ -606,8 +606,15 @@ static bool elem_is(const void *p, unsigned char b0, size_t siz)
     for (size_t j = 0; j < siz; ++j) { if (((const unsigned char *)p)[j] != ebyte(b0, j)) { return false; } }
     return true;
 }
+// the key handed to push_sort is documented as "the key on the right", the object handed to search goes to the left (bsearch):
+// callers may rely on it with a key of another layout than the elements.  The key is recognised by its address.
+static const void *g_key_ptr;
+static int g_key_side; // 0: not checked, 1: the key must be the left argument, 2: the right one
+static bool g_key_side_bad;
 static int cmp_key(void const *l, void const *r)
 {
+    if (g_key_side == 1 && l != g_key_ptr) { g_key_side_bad = true; }
+    if (g_key_side == 2 && r != g_key_ptr) { g_key_side_bad = true; }
     int a = *(unsigned char const *)l >> 4, b = *(unsigned char const *)r >> 4;
     // any negative / zero / positive value is a valid answer: magnitudes other than one catch code that uses the result as +-1
     return a > b ? 3 : a < b ? -5 : 0;
@@ -823,7 +830,10 @@ struct QueH
             unsigned char probe[32];
             fill_elem(probe, b0, siz);
             bool recycled = q->cur_ > 0;
+            g_key_ptr = probe; g_key_side = 2; g_key_side_bad = false;
             void *p = a_que_push_sort(q, probe, cmp_key);
+            g_key_side = 0;
+            if (g_key_side_bad) { ck.fail("comparator-arguments", "push_sort called the comparator without the key on the right"); return; }
             outcome = recycled ? "recycled-node" : "fresh-node";
             if (!check_new(L, p, ck)) { return; }
             fill_elem(p, b0, siz);
